@@ -351,6 +351,7 @@ func runC18(c *Ctx) {
 		for _, st := range storesToField(fn, "VFSFile.commit") {
 			c.requireGuard(rule, fn, Site{st, "f.commit = ..."}, cmpFact(vFieldLoad("VFSFile.targetTime", nil), token.EQL, vNil(), "no time-travel target"))
 		}
+		c18TimeTravelFreeze(c, rule)
 	}
 	if fn := c.fn("R5-pending-replace", "(*ls.VFSFile).Unlock"); fn != nil {
 		const rule = "R5-pending-replace"
@@ -623,6 +624,47 @@ func c18HydrationComplete(c *Ctx) {
 				}
 				c.check(!bad, rule, fnName(fn)+": SetComplete is unreachable after a failed "+calleeName(k), c.pos(k), "fail-stop", "hydration is marked complete although "+calleeName(k)+" failed")
 			}
+		}
+	}
+}
+
+// c18TimeTravelFreeze: while a time-travel target is set the poll does not touch the index;
+// the test belongs to the critical section that applies the update (shared with C15: a
+// connection that claims time T never serves pages replicated after T).
+func c18TimeTravelFreeze(c *Ctx, rule string) {
+	fn := c.fnOpt("(*ls.VFSFile).pollReplicaClient")
+	if fn == nil {
+		return
+	}
+	for _, st := range storesToField(fn, "VFSFile.commit") {
+		c.requireGuard(rule, fn, Site{st, "f.commit = ..."}, cmpFact(vFieldLoad("VFSFile.targetTime", nil), token.EQL, vNil(), "no time-travel target"))
+	}
+	// ... and the test belongs to the critical section that applies the update: a
+	// SetTargetTime that runs while the poll waits for the remote listing (lock released)
+	// must still stop the merge
+	for _, f := range []string{"VFSFile.commit", "VFSFile.pos"} {
+		for _, st := range storesToField(fn, f) {
+			if st.Parent() != fn {
+				continue
+			}
+			okCS := false
+			for _, b := range fn.Blocks {
+				for _, in := range b.Instrs {
+					ld, isL := in.(*ssa.UnOp)
+					if !isL || ld.Op != token.MUL {
+						continue
+					}
+					fa, isFA := ld.X.(*ssa.FieldAddr)
+					if !isFA || fieldAddrName(fa) != "VFSFile.targetTime" {
+						continue
+					}
+					if dominates(ld, st) && !releaseBetween(fn, ld, st, "VFSFile.mu") {
+						okCS = true
+					}
+				}
+			}
+			c.check(okCS, rule, fnName(fn)+": "+f+" is updated in the critical section that tested the time-travel target", c.pos(st), "targetTime read after the last acquisition of VFSFile.mu before the update",
+				"the time-travel test and the index update are in different critical sections: a target set while the poll waited for the replica is overwritten by newer pages although the connection claims time T")
 		}
 	}
 }
